@@ -415,11 +415,12 @@ def run_ob(work, ob, idx):
         return r
     r.nprops = len(props)
     bad = [p for p in props if p.get("status") not in ("SUCCESS", "FAILURE")]
-    if bad or status == "error":
+    realfail = [p for p in props if p.get("status") == "FAILURE" and not p.get("description", "").startswith("WITNESS")]
+    if (bad and not realfail) or status == "error":
         r.reason = "cbmc error (status=%s): %s; %d properties undecided" % (status, "; ".join(errors)[:500], len(bad))
         r.wall = time.time() - t0
         return r
-    failed = [p for p in props if p.get("status") != "SUCCESS"]
+    failed = [p for p in props if p.get("status") == "FAILURE"]
     allwit = [p for p in props if p.get("description", "").startswith("WITNESS")]
     wit = [p for p in failed if p.get("description", "").startswith("WITNESS")]
     real = [p for p in failed if not p.get("description", "").startswith("WITNESS")]
